@@ -72,7 +72,7 @@ func HarnessC20Delay() {
 	for i := 0; i < n; i++ {
 		p := "m" + strconv.Itoa(i) + "."
 		m := message.NewMessage("u"+strconv.Itoa(i), nil)
-		src[i] = vrt.Int(p+"src", 0, 3) // 0 none, 1 metadata preset, 2 ctx For, 3 ctx Until
+		src[i] = vrt.Int(p+"src", 0, 4) // 0 none, 1 metadata preset, 2 ctx For, 3 ctx Until, 4 ctx zero Delay{}
 		switch src[i] {
 		case 1:
 			preset[i] = vrt.Str(p + "preset")
@@ -83,6 +83,9 @@ func HarnessC20Delay() {
 			m.SetContext(WithContext(context.Background(), ctxDelay[i]))
 		case 3:
 			ctxDelay[i] = Until(time.Now().Add(time.Duration(vrt.Int(p+"until", -(1<<40), 1<<40))))
+			m.SetContext(WithContext(context.Background(), ctxDelay[i]))
+		case 4:
+			ctxDelay[i] = Delay{} // "a zero delay" is still a delay chosen by the caller
 			m.SetContext(WithContext(context.Background(), ctxDelay[i]))
 		}
 		if vrt.Bool(p + "also.preset") && src[i] >= 2 {
@@ -128,7 +131,7 @@ func HarnessC20Delay() {
 		case 1:
 			vrt.Assert(df == preset[i], "delay metadata already present is kept")
 			vrt.Assert(du == "", "and no second stamp is added")
-		case 2, 3:
+		case 2, 3, 4:
 			vrt.Assert(df == ctxDelay[i].duration.String() && du == ctxDelay[i].time.Format(time.RFC3339), "the delay from the message context is stamped; delayed-for and delayed-until come from the same Delay")
 		case 0:
 			if genKind >= 1 {
